@@ -15,7 +15,7 @@ w == 0:            wrap1, wrap2 return the angle, delta returns d - a  (unbounde
 
 The whole-turn clause needs integrality of a quotient; with an unbounded angle z3 does not
 answer (DESIGN C43; re-measured: unknown at 60 s), so it is claimed for a bounded angle:
-|angle| <= 1000 full turns (quick) / 20000 full turns (thorough) of |2w|, proved in chunks of 100 turns.
+|angle| <= 1000 full turns (quick) / 5000 full turns (thorough) of |2w|, proved in chunks of 100 turns.
 IEEE rounding of float `%` is outside the claim: the model is exact arithmetic.  A
 counterexample is turned into a dyadic rational (10 fractional bits, |x| < 2^30) on which
 float arithmetic is exact, and replayed on the real functions with floats.
@@ -31,12 +31,14 @@ from ioflo.aid import navigating as Nv
 PROPERTY = "C43"
 ENGINE = "E2"
 TECHNIQUE = "source->SMT translation over Real, floor modulo by fresh integer quotients"
+LEVEL_TEXT = "source->SMT over Real with fresh-quotient floor modulo: wrap concrete (17 grid values), angle symbolic; range / delta / wrap-0 clauses for unbounded angles, whole-turn clause for |angle| <= 1000 (quick) / 5000 (thorough) full turns"
+LEVEL_NOTE = "exact-arithmetic model: IEEE rounding of float % is outside the claim; trusted: astsmt translator (validated on float-exact inputs every run), z3 5.1"
 FUNCTIONS = ["ioflo.aid.navigating.wrap1", "ioflo.aid.navigating.wrap2", "ioflo.aid.navigating.delta"]
 ASSUMPTIONS = [
     "exact (rational) arithmetic model: the float rounding of `%`, `-`, `*` is outside the claim",
     "wrap is concrete, from the grid {0, +-0.5, +-1, +-2, +-2.5, +-3, +-90, +-180, +-360}; a symbolic wrap is nonlinear and not attempted",
     "range, delta and wrap-0 obligations: angle(s) unbounded reals",
-    "whole-turn obligations: |angle| <= 1000 * |2*wrap| (quick) / 20000 * |2*wrap| (thorough), in chunks of 100 full turns",
+    "whole-turn obligations: |angle| <= 1000 * |2*wrap| (quick) / 5000 * |2*wrap| (thorough), in chunks of 100 full turns",
     "counterexamples are searched again as dyadic rationals (k/1024, |x| < 2^30) so that the float replay is exact; "
     "a counterexample that exists only at non-dyadic rationals would be reported inconclusive",
 ]
@@ -103,6 +105,9 @@ def replay(vals, params):
     v = A.unjson(vals)
     kind = v["kind"]
     w = v["wrap"]
+    for x in (v["angle"], v.get("other")):
+        if x is not None and fr(float(x)) != fr(x):
+            return ("pass", KEYS[kind], "input %r is not exactly a float: outside the float replay" % (x,))
     try:
         bad = check_concrete(kind, w, v["angle"], v.get("other"))
     except Exception as e:
@@ -209,11 +214,11 @@ def ob_wrap(sess, params):
 
 
 def obligations(tier):
-    turns, chunk = (1000, 100) if tier == "quick" else (20000, 100)
+    turns, chunk = (1000, 100) if tier == "quick" else (5000, 100)
     obs = []
     for w in GRID:
         obs.append(Ob("wrap/%s" % (repr(w).replace(".", "_")), A.run_obligation(ob_wrap, None, 60000), params=dict(wrap=w, turns=turns, chunk=chunk, xcheck=(tier == "thorough"), xcheck_max=6),
-                      kind="e2", replay=replay, budget=600,
+                      kind="e2", replay=replay, budget=600 if tier == "quick" else 3000,
                       bounds=dict(wrap=w, angle="unbounded real (range, delta, wrap 0)",
                                   whole_turns="|angle| <= %d full turns (%d * |2*wrap|), in chunks of %d turns" % (turns, turns, chunk))))
     return obs
